@@ -116,6 +116,27 @@ def run(R):
     ap = [n for (n, c) in calls_in_ctx(npf, attr='append') if comes_from(npf, n, c.func.value, 'covered_part.get_arg(markers)') and ast.unparse(c.args[0]) == ast.unparse(lp[0].ast.target) if lp]
     dt = [t for t in npf.cfg.nodes if t.kind == 'test' and 'TYPE_PARAMETERS_SHA256' in ast.unparse(t.ast)]
     inst = npf.qual + ' :: covered components'
+    # a running position kept across the iterations (`pos += len(component)`) must advance on *every* path through the body: an iteration that
+    # leaves early (continue) without advancing it shifts every range reported afterwards
+    for lp_ in lp:
+        tv = {x.id for x in ast.walk(lp_.ast.target) if isinstance(x, ast.Name)}
+        adv = {}
+        for n_ in npf.cfg.nodes:
+            if n_.kind == 'stmt' and isinstance(n_.ast, ast.AugAssign) and isinstance(n_.ast.target, ast.Name) and isinstance(n_.ast.op, ast.Add) \
+                    and any(isinstance(x, ast.Name) and x.id in tv for x in ast.walk(n_.ast.value)) and any(n_.ast is x for x in ast.walk(lp_.ast)):
+                adv.setdefault(n_.ast.target.id, []).append(n_)
+        for var, nodes_ in sorted(adv.items()):
+            used = any(isinstance(x, ast.Name) and x.id == var and isinstance(x.ctx, ast.Load) for st_ in lp_.ast.body for x in ast.walk(st_)
+                       if not any(x is y for n_ in nodes_ for y in ast.walk(n_.ast)))
+            if not used:
+                continue
+            inst_ = f'{npf.qual} :: running position `{var}` advances in every iteration'
+            if lp_.id in reach_from_succ(npf.cfg, lp_, True, removed_nodes={n_.id for n_ in nodes_}, follow_exc=False):
+                R.fail('C02.MPT.1', inst_, npf.qual, nodes_[0].ast, f'`{norm(nodes_[0].ast)}` is skipped on some path through the loop body (an early `continue`): the '
+                       f'position `{var}` lags behind the components that follow, so the ranges reported as covered by the signature are not the bytes that were signed',
+                       site(npf, nodes_[0].ast))
+            else:
+                R.ok('C02.MPT.1', inst_, site(npf, nodes_[0].ast))
     if len(lp) != 1 or len(ap) != 1 or len(dt) != 1:
         raise AnalysisError('InterestNameField.parse_from: loop shape not recognised')
     # append reachable exactly via the not-digest edge; and unavoidable there
@@ -237,6 +258,37 @@ def run(R):
         else:
             R.fail('C02.LOP.1', inst, q, loops[0].ast if loops else 'def ' + cx.f.node.name, f'not every block of `{listexpr}` is fed to the hash / signature, in order', site(cx, cx.f.node))
     R.need(n_ok + len(R.violations) >= 11, f'only {n_ok} covered-part consumers recognised')
+    # ------------------------------------------------------------------ MPT.3 a known-key validator accepts only what the verifier accepted
+    R.ob('C02.MPT.3', 'known-key validators: every accepting answer is the answer of the signature verification of *this* packet (no answer '
+                      'remembered from, or decided by, anything that leaves out the signature value)')
+    vq = KV + '.KnownChecker.from_key.<validator>'
+    targets = [(vq, ('_verify',))] + [(q, ('verify_ecdsa', 'verify_rsa', 'verify_hmac', 'verify_ed25519'))
+                                      for q in sorted(P.funcs) if q.startswith(KV + '.') and q.endswith('Checker._verify') and not q.startswith(KV + '.KnownChecker.')]
+    for (q, verifiers) in targets:
+        if q not in P.funcs:
+            raise AnalysisError(f'anchor vanished: {q}')
+        cx = ctx(R, q)
+        inst = f'{q} :: accepts only through {"/".join(verifiers)}'
+        bad = []
+        for r in returns(cx):
+            v = r.ast.value
+            exprs = [v]
+            if isinstance(v, ast.Name):
+                exprs = [s_.expr if s_.kind == 'expr' else None for s_ in cx.sources(r, v)]
+            for e in exprs:
+                if isinstance(e, ast.Constant) and not e.value:
+                    continue
+                if isinstance(e, ast.Call) and (callee_attr(e) or getattr(e.func, 'id', None)) in verifiers:
+                    continue
+                bad.append((r, e))
+        if bad:
+            r, e = bad[0]
+            R.fail('C02.MPT.3', inst, q, r.ast, f'`{norm(r.ast)}` can answer {"`" + ast.unparse(e) + "`" if e is not None else "a value"} that is not the result of '
+                   f'{"/".join(verifiers)}(...) for the packet at hand: a packet whose signed portion was seen before (or that merely passes the checks made '
+                   'so far) is accepted whatever its signature value is', site(cx, r.ast))
+        else:
+            R.ok('C02.MPT.3', inst, site(cx, cx.f.node))
+    R.minimum('C02.MPT.3', 5)
     # ------------------------------------------------------------------ MPT.2 digest checkers
     R.ob('C02.MPT.2', 'digest checkers: truthy only through digest == value; empty covered part or missing value is falsy')
     for q, typed in ((DV + '.sha256_digest_checker', True), (DV + '.params_sha256_checker', False)):
